@@ -52,7 +52,7 @@ def run(ctx):
         line2, mp, dst = relabel_case(sub, line, meta, 2 * k + 1)
         cases += [line, line2]
         pairs.append((2 * k, 2 * k + 1, mp, meta, dst))
-    res = ctx.component('K-E2E', cases)
+    res = ctx.component('K-E2E(relabelled pairs, implementation only)', cases, model=False)
     n_eval = 0
     keys = set()
     if res:
